@@ -47,11 +47,24 @@ func (run *vhRun) limited(cpu, mem uint64, fn rt.Value, args ...rt.Value) (out v
 	return
 }
 
-// symbolic limits in a small range: everything the call charges is compared
-// with them by the solver; small values keep the admitted sizes enumerable
-func vhSmallLimits() (cpu, mem uint64) {
+// symbolic limits: everything from 1 up to what the call machinery itself
+// needs (measured by a dry run of the same function on neutral arguments under
+// huge limits — concrete numbers) plus a small margin; everything the call
+// charges is compared with them by the solver, and the small margin keeps the
+// admitted sizes enumerable
+func (run *vhRun) smallLimits(cpuMargin, memMargin uint64, fn rt.Value, neutral ...rt.Value) (cpu, mem uint64) {
+	base := run.limited(1<<40, 1<<40, fn, neutral...)
+	baseCpu := base.ctx.UsedResources().Cpu
+	// memory is released as the call unwinds: find the peak need of the neutral
+	// call (to 32 bytes) by running it under growing limits
+	peak := uint64(32)
+	for ; peak < 1<<14; peak += 32 {
+		if o := run.limited(1<<40, peak, fn, neutral...); o.ctx != nil && o.ctx.Status() != rt.StatusKilled {
+			break
+		}
+	}
 	cpu, mem = nondetUint64("L"), nondetUint64("M")
-	verifAssume(cpu >= 1 && cpu <= 120 && mem >= 1 && mem <= 260)
+	verifAssume(cpu >= 1 && cpu <= baseCpu+cpuMargin && mem >= 1 && mem <= peak+memMargin)
 	return
 }
 
@@ -82,14 +95,19 @@ var vhPieces = [3]string{"", "a", "ab"}
 // string.rep(s, N [, sep])
 func VerifH_C05_amplify_string_rep() {
 	run := vhNewRun()
-	cpu, mem := vhSmallLimits()
+	fn := vhLibFn(run, "string", "rep")
+	cpu, mem := run.smallLimits(40, 64, fn, vhStr(""), vhInt(0))
 	n := nondetInt64("N")
-	s := vhPieces[verifChoose("s", 3)]
+	pieces := 2 // "" and "a"; "ab" as well in the thorough tier
+	if verifTier() == 1 {
+		pieces = 3
+	}
+	s := vhPieces[verifChoose("s", pieces)]
 	args := []rt.Value{vhStr(s), vhInt(n)}
-	if k := verifChoose("sep", 3); k > 0 {
+	if k := verifChoose("sep", pieces+1); k > 0 {
 		args = append(args, vhStr(vhPieces[k-1]))
 	}
-	out := run.limited(cpu, mem, vhLibFn(run, "string", "rep"), args...)
+	out := run.limited(cpu, mem, fn, args...)
 	vhCheckLimited(out, cpu, mem)
 }
 
@@ -104,29 +122,45 @@ func vhSmallTable() *rt.Table {
 // table.insert(t, P, v), table.remove(t, P), select(N, ...), string.sub/byte(s, I, J)
 func VerifH_C05_amplify_ranges() {
 	run := vhNewRun()
-	cpu, mem := vhSmallLimits()
 	i, j, k := nondetInt64("I"), nondetInt64("J"), nondetInt64("K")
 	tv := rt.TableValue(vhSmallTable())
-	var out vhLimitedRun
+	one := vhInt(1)
+	var fn rt.Value
+	var args, neutral []rt.Value
 	switch verifChoose("fn", 8) {
 	case 0:
-		out = run.limited(cpu, mem, vhLibFn(run, "table", "concat"), tv, vhStr(","), vhInt(i), vhInt(j))
+		fn = vhLibFn(run, "table", "concat")
+		args, neutral = []rt.Value{tv, vhStr(","), vhInt(i), vhInt(j)}, []rt.Value{tv, vhStr(","), one, one}
 	case 1:
 		// stated restriction: ranges of 8..255 elements are not explored
 		verifAssume(j < i+8 || j >= i+256 || i+8 < i)
-		out = run.limited(cpu, mem, vhLibFn(run, "table", "unpack"), tv, vhInt(i), vhInt(j))
+		fn = vhLibFn(run, "table", "unpack")
+		args, neutral = []rt.Value{tv, vhInt(i), vhInt(j)}, []rt.Value{tv, one, one}
 	case 2:
-		out = run.limited(cpu, mem, vhLibFn(run, "table", "move"), tv, vhInt(i), vhInt(j), vhInt(k))
+		if verifTier() == 0 {
+			// quick tier: the end of the range is symbolic, start and destination
+			// are chosen among a few values (all three symbolic in the thorough tier)
+			i, k = int64(1+verifChoose("Ic", 2)), int64(1+2*verifChoose("Kc", 2))
+		}
+		fn = vhLibFn(run, "table", "move")
+		args, neutral = []rt.Value{tv, vhInt(i), vhInt(j), vhInt(k)}, []rt.Value{tv, one, one, one}
 	case 3:
-		out = run.limited(cpu, mem, vhLibFn(run, "table", "insert"), tv, vhInt(i), vhStr("v"))
+		fn = vhLibFn(run, "table", "insert")
+		args, neutral = []rt.Value{tv, vhInt(i), vhStr("v")}, []rt.Value{rt.TableValue(vhSmallTable()), one, vhStr("v")}
 	case 4:
-		out = run.limited(cpu, mem, vhLibFn(run, "table", "remove"), tv, vhInt(i))
+		fn = vhLibFn(run, "table", "remove")
+		args, neutral = []rt.Value{tv, vhInt(i)}, []rt.Value{rt.TableValue(vhSmallTable()), one}
 	case 5:
-		out = run.limited(cpu, mem, vhLibFn(run, "", "select"), vhInt(i), vhStr("a"), vhStr("b"))
+		fn = vhLibFn(run, "", "select")
+		args, neutral = []rt.Value{vhInt(i), vhStr("a"), vhStr("b")}, []rt.Value{one, vhStr("a"), vhStr("b")}
 	case 6:
-		out = run.limited(cpu, mem, vhLibFn(run, "string", "sub"), vhStr("abc"), vhInt(i), vhInt(j))
+		fn = vhLibFn(run, "string", "sub")
+		args, neutral = []rt.Value{vhStr("abc"), vhInt(i), vhInt(j)}, []rt.Value{vhStr("abc"), one, one}
 	case 7:
-		out = run.limited(cpu, mem, vhLibFn(run, "string", "byte"), vhStr("abc"), vhInt(i), vhInt(j))
+		fn = vhLibFn(run, "string", "byte")
+		args, neutral = []rt.Value{vhStr("abc"), vhInt(i), vhInt(j)}, []rt.Value{vhStr("abc"), one, one}
 	}
+	cpu, mem := run.smallLimits(8, 48, fn, neutral...)
+	out := run.limited(cpu, mem, fn, args...)
 	vhCheckLimited(out, cpu, mem)
 }
